@@ -184,7 +184,7 @@ classified (and the completeness theorems fail). The zero result of such a metho
 def autoClass (recv name : String) : Option MethodInfo :=
   match Gen.facts.find? (fun f => f.recv == recv && f.name == name && f.exported) with
   | some f =>
-    if !f.reachWrite && !f.reachLock && !f.writes && (f.initGuard || f.getState || f.delegates != "") then some ⟨name, .query, "?"⟩
+    if !f.reachWrite && !f.reachLock && !f.writes && (f.initGuard || f.getState || f.delegates != "" || f.viaExported) then some ⟨name, .query, "?"⟩
     else if f.ronlyGuard && f.initGuard then some ⟨name, .guarded, "?"⟩
     else none
   | none => none
